@@ -751,9 +751,9 @@ def _run_co(ops, cfg, raisers, names, co):
             make(1)
         sched = [1 if x else 0 for x in co.get('sched', [])] + [0] * len(ops) + [1] * len(bops)
         for i in sched:
+            w = make(i)              # a scheduled turn constructs the emitter even when it has nothing (left) to do
             if pos[i] >= len(todo[i]):
                 continue
-            w = make(i)
             o = todo[i][pos[i]]
             pos[i] += 1
             try:
